@@ -458,6 +458,10 @@ class TBRMatchedMarkets:
     Returns:
       False if any specified constraint is not satisfied.
     """
+    # An empty group is never a valid design (and has no size or volume ratio).
+    if not treatment_geos or not control_geos:
+      return False
+
     if self.parameters.volume_ratio_tolerance is not None:
       volume_ratio = (
           self.data.aggregate_geo_share(control_geos)/
